@@ -131,11 +131,13 @@ Print Assumptions C14_case_sound.
    reading of the code rests beyond what input/output comparison pins down: elaborate_nursery
    builds the children with extract_child(child, for_task=True) over context.obj.child_tasks
    after setting obj to manager._nursery; extract_child's stub rule is
-   `for_task and not recurse_child_tasks => Stack(root=stackitem, frames=[])`; the four trap
-   functions are customized hide+prune; the replace/insert decision of the to_thread glue tests
+   `for_task and not recurse_child_tasks => Stack(root=stackitem, frames=[])`; each of the four
+   trap names is a string constant of its own in the tuple customized hide+prune; the replace/insert decision of the to_thread glue tests
    the name "wait_task_rescheduled". *)
 Theorem C14_source_facts :
-  SrcFacts.c14_children_for_task = true /\ SrcFacts.c14_stub_rule = true /\
-  SrcFacts.c14_traps_pruned = 4 /\ SrcFacts.c14_wait_name = true.
-Proof. exact (conj eq_refl (conj eq_refl (conj eq_refl eq_refl))). Qed.
+  SrcFacts.c14_children_for_task = true /\ SrcFacts.c14_stub_rule = true /\ SrcFacts.c14_wait_name = true /\
+  SrcFacts.c14_trap_cancel_shielded_checkpoint = true /\ SrcFacts.c14_trap_wait_task_rescheduled = true /\
+  SrcFacts.c14_trap_temporarily_detach_coroutine_object = true /\
+  SrcFacts.c14_trap_permanently_detach_coroutine_object = true.
+Proof. exact (conj eq_refl (conj eq_refl (conj eq_refl (conj eq_refl (conj eq_refl (conj eq_refl eq_refl)))))). Qed.
 Print Assumptions C14_source_facts.
